@@ -234,7 +234,9 @@ func (s *ygServer) doc(err, msg, cause string) string {
 	return mustJSON(m)
 }
 
-func ygProfileJSON(u int) map[string]any { return map[string]any{"id": ygProfID(u), "name": ygProfName(u)} }
+func ygProfileJSON(u int) map[string]any {
+	return map[string]any{"id": ygProfID(u), "name": ygProfName(u)}
+}
 
 func x12Str(v any) string { s, _ := v.(string); return s }
 
